@@ -144,7 +144,10 @@ namespace vg
         sp.cache = false;
         sp.rows = 1;
         size_t shape = s.weighted({ 170, 40, 46 });  // lattice, fan, obtuse strip
-        double sx = spacing_value(s), sy = spacing_value(s);
+        // anisotropy limited to ~100: beyond that triangles are numerical slivers and no
+        // area comparison is meaningful (stated domain limit, DESIGN.md C18)
+        static const double mpal[] = { 1.0, 2.0, 0.5, 3.0, 7.25, 0.1, 10.0 };
+        double sx = mpal[s.weighted({ 100, 30, 30, 30, 26, 20, 20 })], sy = mpal[s.weighted({ 100, 30, 30, 30, 26, 20, 20 })];
         if (shape == 0)
         {
             size_t r = s.range(2, o.mesh_max_side), c = s.range(2, o.mesh_max_side);
